@@ -78,6 +78,46 @@ pub fn op_c16(req: &J) -> J {
           Err(e) => return json!({ "error": e }),
         }
       }
+      // ["invoke-result", i, V, nparams, named]: a function value with `nparams` parameters of type Any, a body that returns V and the declared
+      // result type types[i] (the public constructor: FEEL function literals always have the result type Any) is bound to `f` and invoked
+      // through the parser and the evaluator: f() / f(1) / f(1, 2) or with named arguments; the answer is the value of the invocation and the
+      // value of invoking a second such function on that result
+      "invoke-result" => {
+        let i = a.get(1).and_then(|x| x.as_u64()).unwrap_or(u64::MAX) as usize;
+        if i >= types.len() {
+          return json!({"error": "type index out of range"});
+        }
+        let v = match jv16(a.get(2).unwrap_or(&J::Null)) {
+          Ok(v) => v,
+          Err(e) => return json!({ "error": e }),
+        };
+        let n = a.get(3).and_then(|x| x.as_u64()).unwrap_or(0) as usize;
+        let named = a.get(4).and_then(|x| x.as_bool()).unwrap_or(false);
+        let params: Vec<(Name, dmntk_feel::FeelType)> = (0..n).map(|k| (Name::from(format!("p{}", k).as_str()), dmntk_feel::FeelType::Any)).collect();
+        let body_value = v.clone();
+        let body = FunctionBody::LiteralExpression(Arc::new(Box::new(move |_: &Scope| body_value.clone())));
+        let f = Value::FunctionDefinition(params.clone(), body, types[i].clone());
+        // g(x) returns its argument and has the same declared result type: coercing twice
+        let g_body = FunctionBody::LiteralExpression(Arc::new(Box::new(|scope: &Scope| scope.get_entry(&Name::from("x")).unwrap_or(Value::Null(None)))));
+        let g = Value::FunctionDefinition(vec![(Name::from("x"), dmntk_feel::FeelType::Any)], g_body, types[i].clone());
+        let mut ctx = FeelContext::default();
+        ctx.set_entry(&Name::from("f"), f);
+        ctx.set_entry(&Name::from("g"), g);
+        let scope: Scope = ctx.into();
+        let args: Vec<String> = (0..n).map(|k| if named { format!("p{}: {}", k, k + 1) } else { format!("{}", k + 1) }).collect();
+        let call = format!("f({})", args.join(", "));
+        let mut answers = vec![];
+        for text in [call.clone(), format!("g({})", call)] {
+          match dmntk_feel_parser::parse_expression(&scope, &text, false) {
+            Ok(node) => match dmntk_feel_evaluator::evaluate(&scope, &node) {
+              Ok(r) => answers.push(vj(&r)),
+              Err(e) => return json!({"error": format!("evaluate {}: {}", text, e)}),
+            },
+            Err(e) => return json!({"error": format!("parse {}: {}", text, e)}),
+          }
+        }
+        out.push(json!({"value": answers[0], "twice": answers[1], "input": vj(&v), "input_type": v.type_of().to_string(), "call": call}));
+      }
       "typeof" => match jv16(a.get(1).unwrap_or(&J::Null)) {
         Ok(v) => out.push(J::String(v.type_of().to_string())),
         Err(e) => return json!({ "error": e }),
